@@ -3,6 +3,8 @@ import Pycoin.Proofs.BIP32Cache
 import Pycoin.Proofs.BIP32Commute
 import Pycoin.Proofs.ElectrumCommute
 import Pycoin.Proofs.BIP32Secp
+import Pycoin.Proofs.BIP32Text
+import Pycoin.Proofs.BIP32Coords
 /-!
 C09 — Hierarchical key derivation follows BIP32 and commutes with going public.  Property theorems
 (helper lemmas: `Proofs/BIP32*.lean`).
@@ -195,6 +197,139 @@ theorem C09_electrum_commute (S : Setting g) (w w' : Wallet) (k : Int) (hk : w.s
   simp only [hmp, keyInit, hon, if_true]
 
 end electrum
+
+/-! ## serialisation and text form -/
+
+section ser
+open Pycoin.Curve WeierstrassCurve Pycoin.Addr
+variable {g : Gen} [Good g.c]
+
+/-- **serialize_rt (private form).** A constructed private node with depth ≤ 255 and child number < 2³² serialises
+(`as_private=True` or `None`) to 74 bytes — with any 4 version bytes in front, exactly the BIP's 78-byte format
+`version ‖ depth ‖ parent fingerprint ‖ ser32(child number) ‖ chain code ‖ 0x00 ‖ ser256(k)` — and `deserialize`
+of those 78 bytes is the node itself: every field preserved. -/
+theorem C09_serialize_rt (n : Node) (se : Int) (hv : n.Valid g) (hse : n.secretExponent = some se)
+    (hd : n.depth ≤ 255) (hi : n.childIndex < 2 ^ 32) (hn : g.c.n ≤ 2 ^ 256) (ver : Bytes) (hver : ver.length = 4)
+    (p : Option Bool) (hp : p = some true ∨ p = none) :
+    ∃ blob, n.serialize p = .ok blob ∧ blob.length = 74 ∧ (ver ++ blob).length = 78 ∧
+      ver ++ blob = Spec.BIP32.serialize (mathCrypto g.c) ver
+        ⟨n.depth, n.parentFingerprint, n.childIndex, n.chainCode, .inl se.toNat⟩ ∧
+      deserialize g n.kind (ver ++ blob) = .ok n := by
+  obtain ⟨blob, h1, h2, h3, h4⟩ := serialize_rt_private g n se hv hse hd hi hn ver hver p hp
+  refine ⟨blob, h1, h2, by simp [hver, h2], ?_, h4⟩
+  rw [h3]
+  simp [Spec.BIP32.serialize, Spec.BIP32.ser32, Spec.BIP32.ser256]
+
+/-- **serialize_rt (public form)** of any constructed node whose public pair has `0 ≤ x < p`, `0 < y < p` (true of
+every key `k • G`: `C09_public_pair_coords`): 74 bytes, the BIP's format with `serP(K)`, and `deserialize` gives the
+node without its exponent — the compressed key is decompressed through `points_for_x` to the same pair. -/
+theorem C09_serialize_rt_public (S : Setting g) (h4 : g.c.p % 4 = 3) (hbc : byteCount g.c.p = 32) (n : Node) (hv : n.Valid g)
+    (hd : n.depth ≤ 255) (hi : n.childIndex < 2 ^ 32)
+    (hx0 : 0 ≤ n.publicPair.1) (hx1 : n.publicPair.1 < g.c.p) (hy0 : 0 < n.publicPair.2) (hy1 : n.publicPair.2 < g.c.p)
+    (ver : Bytes) (hver : ver.length = 4) :
+    ∃ blob, n.serialize (some false) = .ok blob ∧ blob.length = 74 ∧
+      ver ++ blob = Spec.BIP32.serialize (mathCrypto g.c) ver
+        ⟨n.depth, n.parentFingerprint, n.childIndex, n.chainCode, .inr (toPoint g.c (some n.publicPair))⟩ ∧
+      deserialize g n.kind (ver ++ blob) = .ok { n with secretExponent := none } := by
+  have hx256 : n.publicPair.1 < 2 ^ 256 := by
+    have : (g.c.p : Int) ≤ 2 ^ 256 := by exact_mod_cast S.hp256
+    omega
+  obtain ⟨blob, h1, h2, h3, h5⟩ := serialize_rt_public h4 hbc n hv hd hi hx0 hx256 hy0 hy1 ver hver
+  refine ⟨blob, h1, h2, ?_, h5⟩
+  have hon : containsXY g.c n.publicPair.1 n.publicPair.2 = true := by
+    have hv' := hv
+    unfold Node.Valid at hv'
+    obtain ⟨-, -, -, -, -, -, -, hk⟩ := mkNode_ok hv'
+    cases hse : n.secretExponent with
+    | none => rw [hse] at hk; exact (keyInit_pub_ok hk).2.2
+    | some se => rw [hse] at hk; exact (keyInit_priv_ok hk).2.2.2.2
+  have hsec := publicPairToSec_eq g.c (x := n.publicPair.1) (y := n.publicPair.2) hon ⟨hx0, hx1, hy0.le, hy1⟩ S.hp256
+  have hsec' : publicPairToSec n.publicPair =
+      .ok ((if fmod n.publicPair.2 2 = 1 then 3 else 2) :: beBytes n.publicPair.1.toNat 32) := by
+    unfold publicPairToSec; rw [toBytes32_ok hx0 hx256]
+  rw [show (n.publicPair.1, n.publicPair.2) = n.publicPair from rfl] at hsec
+  rw [hsec'] at hsec
+  injection hsec with hsec
+  rw [h3, hsec]
+  simp [Spec.BIP32.serialize, Spec.BIP32.ser32, mathCrypto]
+
+/-- the public pair of every constructed private key (`pp = s * generator`, odd order): `0 ≤ x < p`, `0 < y < p` -/
+theorem C09_public_pair_coords (S : Setting g) (hodd : g.c.n % 2 = 1) {s : Nat} {pp : Int × Int}
+    (hpub : g.mul (s : Int) = .ok (some pp)) : 0 ≤ pp.1 ∧ pp.1 < g.c.p ∧ 0 < pp.2 ∧ pp.2 < g.c.p :=
+  pub_coords S hodd hpub
+
+/-- the prefix table, whole: on every network of `Gen/Networks` whose Base58Check is double-SHA-256 and for each of
+bip32 / bip49 / bip84, either the network defines neither prefix, or `bipNN_as_string` prepends exactly the prefixes
+`ParseAPI` tests for, both are 4 bytes long, and the private and public one differ (`decide` over the table
+regenerated from the source on every run) -/
+theorem C09_prefix_table : ∀ net ∈ Pycoin.Gen.Networks.all, net.b58DoubleSha = true →
+    prefixesOk net .bip32 = true ∧ prefixesOk net .bip49 = true ∧ prefixesOk net .bip84 = true :=
+  prefix_table
+
+/-- **hwif_rt.** Every network of the generated table (double-SHA-256 Base58Check) and every prefix kind it
+defines — bip32, bip49, bip84; `a` is its private prefix —, every constructed private node of that class with
+depth ≤ 255 and child number < 2³²:
+* `hwif(as_private=True)` is a text that `network.parse.bipNN` maps back to the node, every field preserved;
+* `hwif(as_private=False)` is a text that `network.parse.bipNN` maps to the node without its exponent
+  (the private prefix is tried first and does not match: the prefixes are distinct and equally long).
+Uses the C11 Base58Check round trip. -/
+theorem C09_hwif_rt (S : Setting g) (hodd : g.c.n % 2 = 1) (h4 : g.c.p % 4 = 3) (hbc : byteCount g.c.p = 32)
+    (net : Network) (hmem : net ∈ Pycoin.Gen.Networks.all) (hnet : net.b58DoubleSha = true)
+    (n : Node) (se : Int) (hv : n.Valid g) (hse : n.secretExponent = some se)
+    (hd : n.depth ≤ 255) (hi : n.childIndex < 2 ^ 32) {a : Bytes} (ha : parsePrefix net n.kind true = some a) :
+    (∃ text, hwif net n true = some (.ok text) ∧ parseBip g net n.kind text = .ok (some n)) ∧
+    (∃ text, hwif net n false = some (.ok text) ∧
+      parseBip g net n.kind text = .ok (some { n with secretExponent := none })) := by
+  have hok : prefixesOk net n.kind = true := by
+    obtain ⟨t1, t2, t3⟩ := prefix_table net hmem hnet
+    cases hk : n.kind <;> assumption
+  have hv' := hv
+  unfold Node.Valid at hv'
+  rw [hse] at hv'
+  obtain ⟨-, -, -, -, -, -, -, hk⟩ := mkNode_ok hv'
+  obtain ⟨-, s1, s2, hpub, -⟩ := keyInit_priv_ok hk
+  obtain ⟨s, rfl⟩ := Int.eq_ofNat_of_zero_le (show (0 : Int) ≤ se by omega)
+  obtain ⟨x0, x1, y0, y1⟩ := pub_coords S hodd hpub
+  have hx256 : n.publicPair.1 < 2 ^ 256 := by
+    have : (g.c.p : Int) ≤ 2 ^ 256 := by exact_mod_cast S.hp256
+    omega
+  exact ⟨hwif_rt_private net hnet n s hv hse hd hi S.hn256 hok ha,
+    hwif_rt_public h4 hbc net hnet n hv hd hi x0 hx256 y0 y1 hok ha⟩
+
+/-- **hwif_rt for a public-only node** with coordinates as in `C09_public_pair_coords` -/
+theorem C09_hwif_rt_public_node (S : Setting g) (h4 : g.c.p % 4 = 3) (hbc : byteCount g.c.p = 32)
+    (net : Network) (hmem : net ∈ Pycoin.Gen.Networks.all) (hnet : net.b58DoubleSha = true)
+    (n : Node) (hv : n.Valid g) (hpubn : n.secretExponent = none) (hd : n.depth ≤ 255) (hi : n.childIndex < 2 ^ 32)
+    (hx0 : 0 ≤ n.publicPair.1) (hx1 : n.publicPair.1 < g.c.p) (hy0 : 0 < n.publicPair.2) (hy1 : n.publicPair.2 < g.c.p)
+    {a : Bytes} (ha : parsePrefix net n.kind true = some a) :
+    ∃ text, hwif net n false = some (.ok text) ∧ parseBip g net n.kind text = .ok (some n) := by
+  have hok : prefixesOk net n.kind = true := by
+    obtain ⟨t1, t2, t3⟩ := prefix_table net hmem hnet
+    cases hk : n.kind <;> assumption
+  have hx256 : n.publicPair.1 < 2 ^ 256 := by
+    have : (g.c.p : Int) ≤ 2 ^ 256 := by exact_mod_cast S.hp256
+    omega
+  obtain ⟨text, t1, t2⟩ := hwif_rt_public h4 hbc net hnet n hv hd hi hx0 hx256 hy0 hy1 hok ha
+  refine ⟨text, t1, ?_⟩
+  rw [t2]
+  cases n
+  simp_all
+
+/-- the serialised depth is one byte: beyond 255 `serialize` raises `ValueError` (and so does `hwif`) -/
+theorem C09_serialize_depth_limit (n : Node) (p : Option Bool) (hd : 255 < n.depth)
+    (hm : ¬ (n.secretExponent.isNone ∧ p.getD n.secretExponent.isSome = true)) :
+    n.serialize p = .error .value := by
+  unfold Node.serialize
+  simp only
+  rw [if_neg hm, if_pos hd]
+
+/-- the side conditions on the shipped curve: odd order, `p ≡ 3 (mod 4)`, 32-byte coordinates -/
+theorem C09_secp256k1_side_conditions :
+    Pycoin.Gen.Curves.secp256k1.n % 2 = 1 ∧ Pycoin.Gen.Curves.secp256k1.p % 4 = 3 ∧
+      byteCount Pycoin.Gen.Curves.secp256k1.p = 32 := by
+  decide +kernel
+
+end ser
 
 /-! ## the sub-key cache is transparent -/
 
